@@ -175,7 +175,47 @@ pub fn run(ctx: &Ctx) -> Report {
             }
         }
     }
-    total.merge(st);
+    let mut st2 = Stats::new();
+    // every supported directive and escape of the format language on its own, on files of every
+    // type with odd/even block counts (rounding of %k), zero and large values
+    let mut fileset: Vec<FileRec> = vec![];
+    for (i, ft) in FT::ALL.iter().enumerate() {
+        let mut f = FileRec::base(PLACEHOLDER_NOW);
+        f.mode = ft.bits() | [0o644, 0o7777, 0, 0o4755, 0o1000, 0o600, 0o111][i];
+        f.blocks = [0, 1, 2, 3, 7, 8, 1 << 40][i];
+        f.size = [1, 511, 512, 513, 4096, 1 << 33, u64::MAX][i];
+        f.uid = [0, 1, 1000, 65534, u32::MAX, 7, 42][i];
+        f.gid = [1, 0, 100, u32::MAX, 65534, 9, 43][i];
+        f.nlink = [1, 2, 3, 0, 1000, u64::MAX, 5][i];
+        f.ino = [1, 2, 3, 4, u64::MAX, 6, 7][i];
+        f.projid = i as u32 * 1000;
+        f.stripe_count = i as u32;
+        f.mirror_count = (7 - i) as u32;
+        f.stripe_size = 65536 << i;
+        f.rel_path = ["a", "dir/b", "x/y/z.c", "UPPER", "d.1/d.2/f", "top", "a b/c d"][i].to_string();
+        f.xattrs = if i % 2 == 0 { vec![("tag".into(), format!("v{i}")), ("user".into(), "root".into())] } else { vec![] };
+        fileset.push(f);
+    }
+    let mut elements: Vec<FEl> = gen::supported_fields().into_iter().map(FEl::F).collect();
+    for e in [Esc::Alarm, Esc::Backspace, Esc::Clear, Esc::Form, Esc::Newline, Esc::CarriageReturn, Esc::Tab, Esc::VTab, Esc::Null, Esc::Backslash] {
+        elements.push(FEl::E(e));
+    }
+    for v in 1u16..128 {
+        if v != 0x1e {
+            elements.push(FEl::E(Esc::Ascii(v)));
+        }
+    }
+    for el in &elements {
+        for fmt in [vec![el.clone()], vec![el.clone(), FEl::E(Esc::Newline)], vec![FEl::Lit("<".into()), el.clone(), FEl::Lit(">".into()), FEl::F(Fld::NameNoStart), FEl::E(Esc::Newline)]] {
+            for act in [Act::Printf(fmt.clone()), Act::FPrintf("out".into(), fmt.clone())] {
+                let c = Case { tree: E::A(act), files: fileset.clone(), threads: None, via_text: false };
+                let (v, n) = judge_with(&c, false);
+                executions.fetch_add(n, std::sync::atomic::Ordering::Relaxed);
+                st2.record(&v, stable_hash(&c), true, || case_json(&c));
+            }
+        }
+    }
+    total.merge(st2);
     for smp in total.samples.iter_mut() {
         if let Some(n) = smp.get("files").and_then(|f| f.as_array()).map(|a| a.len()) {
             smp["files"] = json!(format!("{n} random records (+ the directed set)"));
